@@ -5,11 +5,12 @@
 (* budget bound in every window, and only the caller's subnet is charged.    *)
 EXTENDS TraceBase, LimiterOps
 
-VARIABLES l, cfg, bucket, adm
-tvars == <<l, cfg, bucket, adm>>
+VARIABLES l, cfg, bucket, adm, seen
+tvars == <<l, cfg, bucket, adm, seen>>
+EntryTtl == 60000   \* entryTtl (one minute) in trace time units
 
 NoCfg == [limit |-> 0, burst |-> 0, v4 |-> 0, v6 |-> 0]
-Init == l = 1 /\ cfg = NoCfg /\ bucket = <<>> /\ adm = <<>> /\ InitMark
+Init == l = 1 /\ cfg = NoCfg /\ bucket = <<>> /\ adm = <<>> /\ seen = <<>> /\ InitMark
 
 IsEvent(e) == l <= Len(Trace) /\ Trace[l].ev = e /\ l' = l + 1 /\ Mark(l)
 
@@ -19,7 +20,7 @@ RateOf(c) == c.limit      \* tokens per second = milli-tokens per millisecond
 
 NewCfg == /\ IsEvent("lim.cfg")
           /\ cfg' = [limit |-> Trace[l].limit, burst |-> Trace[l].burst, v4 |-> Trace[l].v4, v6 |-> Trace[l].v6]
-          /\ bucket' = <<>> /\ adm' = <<>>
+          /\ bucket' = <<>> /\ adm' = <<>> /\ seen' = <<>>
 
 BucketOf(k, t) == IF k \in DOMAIN bucket THEN bucket[k] ELSE Full(EffBurst(cfg), t)
 
@@ -42,12 +43,30 @@ Call == /\ IsEvent("lim.v")
                               THEN {IF ev.res THEN "Inv_C15_Decision_overAdmit" ELSE "Inv_C15_Isolation_refusedWithinBudget"}
                               ELSE {})
                            \cup (IF ev.res /\ ~BudgetNewest(adm2) THEN {"Inv_C15_Budget"} ELSE {}))
+              \* after a reported over-admission the model follows the code (the tokens are gone), so that one
+              \* defect is reported once and not again at every later call of that subnet
               /\ bucket' = [x \in DOMAIN bucket \cup {k} |->
-                              IF x = k THEN After(bk, RateOf(cfg), EffBurst(cfg), ev.t, ev.n) ELSE bucket[x]]
+                              IF x # k THEN bucket[x]
+                              ELSE IF ev.res /\ ~specOk
+                                   THEN [tokens |-> LET r == Refilled(bk, RateOf(cfg), EffBurst(cfg), ev.t)
+                                                    IN IF r > ev.n * 1000 THEN r - ev.n * 1000 ELSE 0, last |-> ev.t]
+                                   ELSE After(bk, RateOf(cfg), EffBurst(cfg), ev.t, ev.n)]
+              /\ seen' = [x \in DOMAIN seen \cup {k} |-> IF x = k THEN ev.t ELSE seen[x]]
               /\ adm' = Trunc(adm2)
         /\ UNCHANGED cfg
 
-Next == NewCfg \/ Call
+\* ClientLimiter.gc at time t: the specification forgets exactly the buckets whose forgetting cannot be
+\* observed (idle for more than a minute AND full again); a bucket the code forgets although it is in use
+\* or not yet refilled shows up as an over-admission at its next call.
+Gc == /\ IsEvent("lim.gc")
+      /\ LET t == Trace[l].t
+             drop == {k \in DOMAIN bucket : t - seen[k] > EntryTtl
+                                           /\ Refilled(bucket[k], RateOf(cfg), EffBurst(cfg), t) = EffBurst(cfg) * 1000}
+         IN /\ bucket' = [x \in DOMAIN bucket \ drop |-> bucket[x]]
+            /\ seen' = [x \in DOMAIN seen \ drop |-> seen[x]]
+      /\ UNCHANGED <<cfg, adm>>
+
+Next == NewCfg \/ Call \/ Gc
 Spec == Init /\ [][Next]_tvars
 Post == Consumed
 =============================================================================
